@@ -1917,7 +1917,31 @@ impl TransactionBuilder {
                 fn has_assets(ma: Option<MultiAsset>) -> bool {
                     ma.map(|assets| assets.len() > 0).unwrap_or(false)
                 }
-                let change_estimator = input_total.checked_sub(&output_total)?;
+                // an input value may hold assets with a zero quantity or policies without assets
+                // (e.g. a decoded value): they are nothing, and must not end up in a change output
+                fn without_empty_assets(value: &Value) -> Value {
+                    let mut cleaned = MultiAsset::new();
+                    if let Some(ma) = &value.multiasset {
+                        for (policy, assets) in ma.0.iter() {
+                            let mut kept = Assets::new();
+                            for (name, amount) in assets.0.iter() {
+                                if !amount.is_zero() {
+                                    kept.insert(name, amount);
+                                }
+                            }
+                            if kept.len() > 0 {
+                                cleaned.insert(policy, &kept);
+                            }
+                        }
+                    }
+                    let mut result = Value::new(&value.coin);
+                    if cleaned.len() > 0 {
+                        result.set_multiasset(&cleaned);
+                    }
+                    result
+                }
+                let change_estimator =
+                    without_empty_assets(&input_total.checked_sub(&output_total)?);
                 if has_assets(change_estimator.multiasset()) {
                     fn will_adding_asset_make_output_overflow(
                         output: &TransactionOutput,
@@ -2057,7 +2081,7 @@ impl TransactionBuilder {
                         change_assets.push(output.amount.multiasset().unwrap());
                         Ok(change_assets)
                     }
-                    let mut change_left = input_total.checked_sub(&output_total)?;
+                    let mut change_left = change_estimator.clone();
                     let mut new_fee = fee.clone();
                     // we might need multiple change outputs for cases where the change has many asset types
                     // which surpass the max UTXO size limit
